@@ -670,8 +670,38 @@ def run(ctx):
     near += [0.1 + 0.2, 1.1 * 3, 0.3333333333333334]
     ctx.count('near-equal-number-values', len(near))
     laws_over(ctx, near, lambda o, x, y: via_fixup(o, x, y))
+    if ctx.shard == 1 % ctx.nshards:
+        law_sign_symmetry(ctx)
     # 4. sampled
     sampled(ctx)
+
+
+SIGN_MAGNITUDES = [0.5, 2.5, 1 / 3, 0.1 + 0.2, 1e-3, 1e-4, 1e-5, 2.5e-5, 1.25e-7, 1e-8, 5e-9, 1e-9, 3e-10, 1e-12, 1e-7,
+                   123456.789, 999999.5, 1e15, 1.5e15, 1e20]
+
+
+def law_sign_symmetry(ctx):
+    """the rendering of a negative number in a concatenation is '-' followed by the rendering of its magnitude,
+    whichever form (plain digits, exponent) the magnitude takes - on the left and on the right of &"""
+    cr = ctx_route()
+    for x in SIGN_MAGNITUDES:
+        for side in ('left', 'right'):
+            for route in ('fixup', 'ctx-cells'):
+                def cat(v):
+                    a, b = (v, '|') if side == 'left' else ('|', v)
+                    if route == 'fixup':
+                        return via_fixup('&', a, b)
+                    return cr.run(formula_text('&', 'A1', 'B1'), {'A1': a, 'B1': b}, cache=False)
+                pos, neg = cat(x), cat(-x)
+                ctx.count('sign_symmetry_of_renderings')
+                ctx.case(('sign-symmetry', x, side, route))
+                want = None
+                if pos[0] == 'v' and isinstance(pos[1], str):
+                    want = '-' + pos[1] if side == 'left' else '|-' + pos[1][1:]
+                if neg[0] != 'v' or neg[1] != want:
+                    ctx.violation('concat/rendering-depends-on-the-sign',
+                                  f'[{route}] {x!r} & "|" on the {side}: {show(pos)}, with -{x!r}: {show(neg)}',
+                                  {'kind': 'sign-symmetry', 'x': x})
 
 
 def judge_silently(op, a, b):
@@ -683,6 +713,9 @@ def judge_silently(op, a, b):
 
 
 def replay(ctx, case):
+    if case['kind'] == 'sign-symmetry':
+        law_sign_symmetry(ctx)
+        return
     if case['kind'] == 'law':
         vals = case['values']
         while len(vals) < 3:
